@@ -19,8 +19,19 @@ SHARD_SIZE = 150
 
 DTN = {'bool': 'DBool', 'int32': 'DI32', 'int64': 'DI64', 'float32': 'DF32', 'float64': 'DF64',
        'complex64': 'DC64', 'complex128': 'DC128'}
-BOPS = {'add': 'BAdd', 'subtract': 'BSub', 'multiply': 'BMul', 'maximum': 'BMax', 'minimum': 'BMin'}
-UOPS = {'negative': 'UNeg', 'absolute': 'UAbs', 'square': 'USquare', 'sign': 'USign', 'positive': 'UPos'}
+BOPS = {'add': 'BAdd', 'subtract': 'BSub', 'multiply': 'BMul', 'maximum': 'BMax', 'minimum': 'BMin',
+        'true_divide': 'BDiv', 'fmax': 'BFmax', 'fmin': 'BFmin', 'less': 'BLess', 'less_equal': 'BLessEq',
+        'greater': 'BGreater', 'greater_equal': 'BGreaterEq', 'equal': 'BEq', 'not_equal': 'BNe',
+        'logical_and': 'BLogAnd', 'logical_or': 'BLogOr', 'logical_xor': 'BLogXor'}
+UOPS = {'negative': 'UNeg', 'absolute': 'UAbs', 'square': 'USquare', 'sign': 'USign', 'positive': 'UPos',
+        'reciprocal': 'UReciprocal', 'logical_not': 'ULogNot'}
+BOPS_UOPS_EXTRA = set(list(BOPS) + list(UOPS)) - {'add', 'subtract', 'multiply', 'maximum', 'minimum', 'negative',
+                                                    'absolute', 'square', 'sign', 'positive'}
+# ufuncs whose operands must avoid zero (exact division)
+NONZERO = ('true_divide', 'reciprocal')
+# comparisons have no reduce/accumulate/reduceat loop on numeric arrays (TypeError, whose precedence over
+# axis errors depends on NumPy internals): only __call__, outer and at are generated for them
+CMP = ('less', 'less_equal', 'greater', 'greater_equal', 'equal', 'not_equal')
 METH = {'__call__': 'MCall', 'reduce': 'MReduce', 'accumulate': 'MAccumulate', 'outer': 'MOuter',
         'at': 'MAt', 'reduceat': 'MReduceat'}
 
@@ -173,7 +184,7 @@ def variant_term():
     if VARIANTS is None:
         VARIANTS = measure_variants()
     v = VARIANTS
-    return '(mkVar %s %s %s)' % (C.b(v['grow']), C.b(v['negaxis']), C.b(v['boolouter']))
+    return '(mkVar %s)' % C.b(v['grow'])
 
 
 # ------------------------------------------------------------------ a call
@@ -460,8 +471,19 @@ def second_operand(rng, x, bufs, allow_elem=True):
     return ('scal', float(rng.randint(-3, 3))), c
 
 
+CORE_OPS = ('add', 'subtract', 'multiply', 'maximum', 'minimum', 'negative', 'absolute', 'square', 'sign', 'positive')
+
+
 def gen_calls(rng, tier):
-    """yield (Call, description, key)"""
+    """yield (Call, description, key); in the quick tier the ufuncs beyond CORE_OPS are subsampled"""
+    for c, desc, key in _gen_calls(rng, tier):
+        if tier == 'quick' and desc.get('ufunc') in BOPS_UOPS_EXTRA and desc.get('method') != '__call__' \
+                and rng.random() < 0.6:
+            continue
+        yield c, desc, key
+
+
+def _gen_calls(rng, tier):
     reps = 1 if tier == 'quick' else 4
     ORACLE1 = [np.sin, np.exp, np.floor, np.isfinite, np.sqrt, np.logical_not, np.signbit]
     ORACLE2 = [np.true_divide, np.less, np.arctan2, np.logical_and, np.hypot, np.copysign, np.equal]
@@ -478,7 +500,10 @@ def gen_calls(rng, tier):
                     dtype = rng.choice(dtypes)
                     if uname in ('oracle1', 'oracle2') or outk in ('f32', 'dtkw', 'dtkw_out', 'dtkw_out_int', 'out_int'):
                         dtype = 'float64'
-                    if np.dtype(dtype).kind == 'c' and uname in ('sign', 'maximum', 'minimum'):
+                    if np.dtype(dtype).kind == 'c' and uname not in ('negative', 'absolute', 'square', 'positive', 'add',
+                                                                       'subtract', 'multiply'):
+                        dtype = 'float64'
+                    if uname in NONZERO and dtype == 'float32':
                         dtype = 'float64'
                     bufs = []
                     shape = rand_shape(rng)
@@ -542,6 +567,13 @@ def gen_calls(rng, tier):
                         outs = [None if o is None else
                                 (o if bufs[o[-1]].dtype == rd else respace(rng, x, bufs, o[0], dtype=rd))
                                 for o in outs]
+                    if uname in NONZERO and (kw.get('dtype') == 'float32' or any(b.dtype == np.float32 for b in bufs)):
+                        continue       # rounding of quotients in float32 exceeds the tolerance
+                    if 'dtype' in kw and (uname in CMP or uname.startswith('logical')):
+                        continue       # dtype=float selects a loop these ufuncs do not have
+                    if uname in NONZERO:
+                        for b_ in bufs:
+                            b_[b_ == 0] = 1
                     c = Call(uf, '__call__', bufs, ins, outs, **kw)
                     c.out_bare = rng.random() < 0.5
                     yield c, {'kind': kind, 'ufunc': uf.__name__, 'method': '__call__', 'out': outk,
@@ -592,10 +624,14 @@ def gen_calls(rng, tier):
                         (kind, uf.__name__, method, 'direct', nouts, bad, len(shape))
             # ---- reduce
             for bname in BOPS:
+                if bname in CMP:
+                    continue
                 for axk in ['absent', 'none', 'int', 'neg', 'neg-lead1', 'tuple', 'tuple-all', 'empty-tuple', 'oob', 'dup']:
                     for outk in ['none', 'same', 'arr', 'keepdims', 'dtkw']:
+                        if outk == 'dtkw' and bname.startswith('logical'):
+                            continue
                         dtype = rng.choice(['float64', 'float64', 'int64', 'float32'])
-                        if outk == 'dtkw':
+                        if outk == 'dtkw' or bname in NONZERO:
                             dtype = 'float64'
                         bufs = []
                         shape = rand_shape(rng)
@@ -613,7 +649,7 @@ def gen_calls(rng, tier):
                         if outk == 'keepdims':
                             kw['keepdims'] = True
                         if outk == 'dtkw':
-                            kw['dtype'] = rng.choice(['float32', 'float64'])
+                            kw['dtype'] = rng.choice(['float32', 'float64']) if bname not in NONZERO else 'float64'
                         if outk in ('same', 'arr'):
                             # shape of the raw result
                             try:
@@ -626,17 +662,22 @@ def gen_calls(rng, tier):
                             if okind == 'disc':
                                 okind = rng.choice(['disc', 'tens'])
                             outs = [respace(rng, x, bufs, okind, shape=np.shape(r))]
+                        if bname in NONZERO:
+                            bufs[x[-1]][bufs[x[-1]] == 0] = 1
                         c = Call(getattr(np, bname), 'reduce', bufs, [x], outs, axis=axis, **kw)
                         yield c, {'kind': kind, 'ufunc': bname, 'method': 'reduce', 'axis': axk, 'out': outk,
                                   'shape': shape, 'dtype': dtype}, (kind, bname, 'reduce', axk, outk, nd, dtype)
             # ---- accumulate
             for bname in BOPS:
+                if bname in CMP:
+                    continue
                 for axk in ['absent', 'int', 'neg', 'none', 'tuple1', 'oob']:
                     for outk in ['none', 'same', 'arr', 'alias', 'dtkw']:
                         bufs = []
                         shape = rand_shape(rng)
                         nd = len(shape)
-                        x = mk_elem(rng, kind, shape, bufs, rng.choice(['float64', 'int64']), -2, 2)
+                        x = mk_elem(rng, kind, shape, bufs,
+                                    rng.choice(['float64', 'int64']) if bname not in NONZERO else 'float64', -2, 2)
                         axis = {'absent': 'absent', 'int': rng.randrange(nd), 'neg': -rng.randint(1, nd),
                                 'none': None, 'tuple1': (rng.randrange(nd),), 'oob': nd}[axk]
                         outs = {'none': None, 'alias': [x]}.get(outk)
@@ -647,6 +688,10 @@ def gen_calls(rng, tier):
                             outs = [respace(rng, x, bufs, 'arr')]
                         elif outk == 'dtkw':
                             kw['dtype'] = 'float64'
+                        if outk == 'dtkw' and bname.startswith('logical'):
+                            continue       # dtype=float selects a loop the logical ufuncs do not have
+                        if bname in NONZERO:
+                            bufs[x[-1]][bufs[x[-1]] == 0] = 1
                         c = Call(getattr(np, bname), 'accumulate', bufs, [x], outs, axis=axis, **kw)
                         yield c, {'kind': kind, 'ufunc': bname, 'method': 'accumulate', 'axis': axk, 'out': outk,
                                   'shape': shape}, (kind, bname, 'accumulate', axk, outk, nd)
@@ -673,6 +718,9 @@ def gen_calls(rng, tier):
                         outs = None
                         if outk != 'none':
                             outs = [respace(rng, x, bufs, kind if outk == 'same' else 'arr', shape=rshape)]
+                        if bname in NONZERO:
+                            for b_ in bufs:
+                                b_[b_ == 0] = 1
                         c = Call(getattr(np, bname), 'outer', bufs, ins, outs)
                         yield c, {'kind': kind, 'ufunc': bname, 'method': 'outer', 'second': sec, 'out': outk,
                                   'shapes': [shape, shape2]}, (kind, bname, 'outer', sec, outk, len(shape), len(shape2))
@@ -710,11 +758,16 @@ def gen_calls(rng, tier):
                                     ins.append(mk_elem(rng, 'arr', vshape, bufs))
                                 else:
                                     ins.append(mk_elem(rng, 'tens', vshape, bufs))
+                        if uname in NONZERO:
+                            for b_ in bufs:
+                                b_[b_ == 0] = 1
                         c = Call(uf, 'at', bufs, ins, None, idx=idx)
                         yield c, {'kind': kind, 'ufunc': uname, 'method': 'at', 'indices': idx, 'values': vk,
                                   'shape': shape}, (kind, uname, 'at', ik, vk, len(shape), tuple(idx))
             # ---- reduceat
             for bname in BOPS:
+                if bname in CMP:
+                    continue
                 for ik in ['increasing', 'any', 'oob', 'empty', 'single']:
                     for axk in ['absent', 'int', 'neg']:
                         for outk in ['none', 'same']:
@@ -732,6 +785,8 @@ def gen_calls(rng, tier):
                                 rs = list(shape)
                                 rs[0 if axis == 'absent' else axis] = len(idx)
                                 outs = [respace(rng, x, bufs, kind if kind == 'tens' else 'arr', shape=rs)]
+                            if bname in NONZERO:
+                                bufs[x[-1]][bufs[x[-1]] == 0] = 1
                             c = Call(getattr(np, bname), 'reduceat', bufs, [x], outs, axis=axis, idx=idx)
                             yield c, {'kind': kind, 'ufunc': bname, 'method': 'reduceat', 'indices': idx,
                                       'axis': axk, 'out': outk, 'shape': shape}, \
@@ -743,7 +798,9 @@ RULE = ('ufunc x method x {NumpyTensor, DiscretizedSpaceElement} x second operan
         'float32, with dtype=} x axis {absent, None, int, negative, tuple, all, (), out of range, duplicate} x keepdims '
         'x at/reduceat index lists {distinct, repeated, negative, out of range, empty}; shapes 1-3 d with extents 1..4, '
         'small-integer data (exact); weightings default/const/array, exponents 2/1/inf; modelled ufuncs add, subtract, '
-        'multiply, maximum, minimum, negative, absolute, square, sign, positive computed in Coq, others (sin, exp, '
+        'multiply, maximum, minimum, true_divide, fmax, fmin, less, less_equal, greater, greater_equal, equal, '
+        'not_equal, logical_and/or/xor/not, negative, absolute, square, sign, positive, reciprocal computed in Coq '
+        '(comparisons only for __call__/outer/at), others (sin, exp, '
         'floor, isfinite, sqrt, true_divide, less, arctan2, modf, frexp, divmod ...) with NumPy\'s raw result as '
         'oracle.  Every case compares ODL AND raw NumPy with the model.  Non-trivial = the call does not fail on '
         'the raw arrays; distinct by (kind, ufunc, method, out kind, axis kind, dtype, rank, operand kinds).')
@@ -819,6 +876,124 @@ def legacy_cases(rng, tier):
     return cs
 
 
+# ---- power-space elements through the NumPy API (__array__ / __array_wrap__)
+def pspace_cases(rng, tier):
+    import odl
+    cs = C.CaseSet('pspace', ['C17.Arr', 'C17.Model', 'C17.Legacy', 'C17.Corr'], 'check_pspace', 'pcase')
+    reps = 1 if tier == 'quick' else 5
+    names = ['add', 'multiply', 'maximum', 'subtract', 'true_divide', 'less', 'logical_and', 'negative', 'absolute',
+             'square', 'sin', 'isfinite', 'floor']
+    for _ in range(reps):
+        for dtype in ('float64', 'int64', 'float32'):
+            for name in names:
+                uf = getattr(np, name)
+                if name in NONZERO and dtype == 'float32':
+                    continue       # float32 rounding of quotients exceeds the tolerance
+                meths = ['__call__', '__call__', 'out-elem', 'out-arr']
+                if uf.nin == 2 and name not in CMP:
+                    meths += ['reduce', 'reduce-ax', 'reduce-none', 'accumulate', 'outer', 'at', 'reduceat']
+                elif uf.nin == 2:
+                    meths += ['outer', 'at']
+                for mk in meths:
+                    n = rng.randint(1, 3)
+                    s_ = rand_shape(rng, rng.choice([1, 1, 2]))
+                    space = odl.tensor_space(s_, dtype=dtype) ** n
+                    lo = 1 if name in NONZERO else -3
+                    xdata = ivals(rng, (n,) + tuple(s_), lo, 4, dtype=np.dtype(dtype))
+                    x = space.element(xdata.copy())
+                    method = mk if mk in METH else {'out-elem': '__call__', 'out-arr': '__call__', 'reduce-ax': 'reduce',
+                                                   'reduce-none': 'reduce'}[mk]
+                    kw = {}
+                    other = []
+                    other_t = []
+                    self_second = False
+                    idx = None
+                    if method in ('__call__', 'outer', 'at') and uf.nin == 2:
+                        c = rng.choice(['scal', 'arr', 'self', 'arr-first'] if method != 'at' else ['scal'])
+                        if c == 'scal':
+                            v = float(rng.randint(1, 3))
+                            other, other_t = [v], ['(RIScal %s)' % C.q(v)]
+                        elif c == 'self':
+                            other, other_t = [x], [None]
+                        else:
+                            a = ivals(rng, (n,) + tuple(s_), 1, 3)
+                            other, other_t = [a], ['(RIArr %s)' % narr_term(a)]
+                            self_second = (c == 'arr-first')
+                    if mk == 'reduce-ax':
+                        kw['axis'] = rng.randrange(len(s_) + 1)
+                    elif mk == 'reduce-none':
+                        kw['axis'] = None
+                    elif mk == 'accumulate' and rng.random() < 0.5:
+                        kw['axis'] = rng.randrange(len(s_) + 1)
+                    if method in ('at', 'reduceat'):
+                        idx = [rng.randrange(n) for _ in range(rng.randint(1, 3))]
+                    out_elem = (mk == 'out-elem')
+                    if mk == 'out-elem':
+                        kw['out'] = space.element()
+                    f = uf if method == '__call__' else getattr(uf, method)
+                    args = ([x] + other) if not self_second else (other + [x])
+                    if method in ('at', 'reduceat'):
+                        args = [args[0], idx] + args[1:]
+                    raw_args = [np.asarray(a_) if a_ is x else a_ for a_ in args]
+                    try:
+                        # NumPy on the arrays: result dtypes (and values for the oracle ufuncs)
+                        try:
+                            with np.errstate(all='ignore'):
+                                rr = f(*[a_.copy() if isinstance(a_, np.ndarray) else a_ for a_ in raw_args],
+                                       **{k_: v_ for k_, v_ in kw.items() if k_ != 'out'})
+                            if method == 'at':
+                                rr = raw_args[0]
+                            rrs = list(rr) if isinstance(rr, tuple) else [rr]
+                            rdt = [dt_term(np.asarray(t_).dtype) for t_ in rrs]
+                            oracle = '(Ok %s)' % C.lst([narr_term(np.asarray(t_)) for t_ in rrs])
+                        except Skip:
+                            raise
+                        except Exception as e:   # noqa
+                            rdt, oracle = ['DF64'], '(Err %s)' % classify(e)
+                            rrs = None
+                        if mk == 'out-arr':
+                            if rrs is None:
+                                continue
+                            kw['out'] = np.zeros(np.shape(rrs[0]), dtype=np.asarray(rrs[0]).dtype)
+                        try:
+                            with np.errstate(all='ignore'):
+                                r = f(*args, **kw)
+                            rets = list(r) if isinstance(r, tuple) else [r]
+                            obs = []
+                            for o in rets:
+                                if isinstance(o, odl.space.pspace.ProductSpaceElement):
+                                    a_ = o.asarray()
+                                    kind = 1
+                                elif isinstance(o, np.ndarray):
+                                    a_, kind = o, 0
+                                elif o is None:
+                                    raise Skip('None')
+                                else:
+                                    a_, kind = np.asarray(o), 3
+                                obs.append('(mkPW %d %s %s %s)' % (kind, dt_term(a_.dtype), nats(a_.shape),
+                                                                   C.qs(data_list(a_))))
+                            obs_t, summ = '(POk %s)' % C.lst(obs), 'ok'
+                        except Skip:
+                            raise
+                        except Exception as e:   # noqa
+                            obs_t, summ = '(PErr %s)' % classify(e), classify(e)
+                        ufid = '(UB %s)' % BOPS[name] if name in BOPS else ('(UU %s)' % UOPS[name] if name in UOPS
+                                                                           else 'UOracle')
+                        others = [t_ if t_ is not None else '(RIArr %s)' % narr_term(np.asarray(x)) for t_ in other_t]
+                        kwt = '(mkKw %s false None %s%%Z)' % (
+                            'AxAbsent' if 'axis' not in kw else ('AxNone' if kw['axis'] is None
+                                                                 else '(AxInt %d%%Z)' % kw['axis']),
+                            C.zs(idx or []))
+                        t = '(mkPCase %s %s %s %d%%nat %s %s %s %s %s %s %s %s %s %s)' % (
+                            ufid, C.lst(rdt), oracle, n, nats(s_), dt_term(dtype), C.qs(data_list(xdata)),
+                            METH[method], kwt, C.lst(others), C.b(self_second), C.b(out_elem), C.b(mk == 'out-arr'), obs_t)
+                    except Skip:
+                        continue
+                    cs.add(t, {'pspace': name, 'how': mk, 'n': n, 'part_shape': list(s_), 'dtype': dtype,
+                               'outcome': summ}, (name, mk, dtype, summ, n, len(s_)))
+    return cs
+
+
 def correspondence(rng, tier):
     global VARIANTS
     VARIANTS = None
@@ -832,7 +1007,7 @@ def correspondence(rng, tier):
         desc['odl'] = odl_s
         desc['raw'] = raw_s
         cs.add(t, desc, None if 'err' in raw_s else key)
-    return [cs, legacy_cases(rng, tier)]
+    return [cs, legacy_cases(rng, tier), pspace_cases(rng, tier)]
 
 
 # ------------------------------------------------------------------ probes
@@ -1315,6 +1490,12 @@ def legacy_key(spec, cat):
     uf = getattr(np, spec['ufunc'], None)
     uf = uf if isinstance(uf, np.ufunc) else None
     if sk == 'pow' and uf is not None and uf.nout == 2 and cat == 'raises':
+        base = spec['space']
+        while base['kind'] == 'pow':
+            base = base['base']
+        if np.dtype(base['dtype']).kind in 'iub':
+            # the two outputs are allocated in the (integer) space itself
+            return 'legacy-pspace-two-output-integer-space'
         return 'legacy-pspace-two-output-ufuncs'
     if sk == 'disc' and spec.get('out') is not None and spec['out']['kind'] == 'tensor' \
             and cat in ('raises', 'out-identity') and uf is not None and uf.nin == 1:
